@@ -212,7 +212,11 @@ def c01(run):
         opts.append("tu %d %s" % (rng.choice(masks), mat_tokens(m, n, e)))
     run.batch("option-product", opts, "asan")
     run.batch("wide-and-tall", wide_tu_ops(rng, 400 if quick else 6000, 0), "plain")
-    return dict(rule="wide/tall 2-5 x 10-48 network matrices with corrupted entries and sparse random matrices (oracle still exact); "
+    run.batch("structured", structured_ops(rng, 1500 if quick else 20000, kinds=("tu", "tuall", "tusigned")), "plain")
+    return dict(rule="structured: representations (pivots, scalings, permutations, parallel/unit extensions) of R10 and R12 and their "
+                "one-entry corruptions, delta-sums of graphic and cographic pieces Camion-signed by the library (TU by construction: "
+                "Seymour + Camion; verdicts must also agree across all five decomposition strategies and, up to 10x10, with the eulerian "
+                "and partition algorithms); wide/tall 2-5 x 10-48 network matrices with corrupted entries and sparse random matrices (oracle still exact); "
                 "exhaustive: all {-1,0,1} matrices of shapes <=3x3, 2x4, 4x2 (thorough: <=3x4, 4x3) under all three algorithms and "
                 "all 0/1 matrices 4x4, 3x4, 4x3 (thorough: up to 4x5/5x4) under a seeded algorithm; seeded 3x3..7x7 matrices under "
                 "default + single-flag deviations + random option masks; matrices with entries in {-3..3} and empty shapes. "
@@ -245,6 +249,7 @@ def c07(run):
         opts.append("tu %d %s" % (rng.choice(masks) | WANT_SUB, mat_tokens(m, n, e)))
     run.batch("option-product", opts, "asan")
     run.batch("wide-and-tall", wide_tu_ops(rng, 400 if quick else 6000, WANT_SUB), "asan")
+    run.batch("structured", structured_ops(rng, 600 if quick else 8000, kinds=("tu",), want_bits=WANT_SUB), "plain")
     return dict(rule="the C01 domains with a violating submatrix requested, greedy and naive search, all three algorithms; wide and tall "
                 "matrices (2-5 lines by 10-48, network matrices with corrupted entries and sparse random ones: the chunked greedy deletion "
                 "filter only gets going on many lines); non-trivial = "
@@ -285,7 +290,10 @@ def c02(run):
         e = rand_mat(rng, m, n, (-1, 1, 2), 0.6)
         opts.append("regular %d %s" % (DEFAULT_MASK, mat_tokens(m, n, e)))
     run.batch("option-product", opts, "asan")
-    return dict(rule="exhaustive: all 0/1 matrices up to 4x4 (thorough: up to 4x5/5x4) with default parameters; seeded 5x5..6x6 0/1 matrices "
+    run.batch("structured", structured_ops(rng, 1500 if quick else 20000, kinds=("regular", "tusigned")), "plain")
+    return dict(rule="structured: representations of R10/R12 supports and delta-sums of graphic and cographic pieces (regular by Seymour's "
+                "theorem, neither graphic nor cographic in general, beyond the oracle's size: verdict by construction, and equal to the TU "
+                "verdict of the library's Camion signing); exhaustive: all 0/1 matrices up to 4x4 (thorough: up to 4x5/5x4) with default parameters; seeded 5x5..6x6 0/1 matrices "
                 "(deduplicated up to line permutation) under default + random option masks; non-binary inputs. Non-trivial = verdict "
                 "compared with the signing-search oracle; distinct by op line.", extra={"exhaustive": True})
 
@@ -1136,6 +1144,7 @@ def tree_ops(run):
         else:
             big.append("regular %d %s" % (mk, mat_tokens(m, n, e)))
     run.batch("sums-of-blocks", big, "asan")
+    run.batch("structured-with-trees", structured_ops(rng, 500 if quick else 8000, kinds=("tu", "regular"), want_bits=WANT_TREE), "plain")
     hist = []
     for _ in range(300 if quick else 6000):
         ternary = rng.randint(0, 1)
@@ -1510,6 +1519,166 @@ def delta_operand(rng, lo, hi):
             continue
         ca, cb = (c1, c2) if rows[r][c1] == 0 else (c2, c1)
         return rows, r, ca, cb
+
+
+# ------------------------------------------------------------------------------------------------------------------
+# structured instances: representations of R10 / R12, sums of graphic and cographic pieces (shared by C01 C02 C03 C04 C07)
+# ------------------------------------------------------------------------------------------------------------------
+
+def py_pivot(M, r, c, ch):
+    """the library's pivot convention (Cmr/Pivot.lean pivotRaw), reduced mod 2 or to {-1,0,1} mod 3"""
+    e = M[r][c]
+    m, n = len(M), len(M[0])
+    def red(v):
+        if ch == 2: return v % 2
+        v %= 3
+        return -1 if v == 2 else v
+    return [[red((-e if b == c else e * M[r][b]) if a == r else (e * M[a][c] if b == c else M[a][b] - e * M[a][c] * M[r][b]))
+             for b in range(n)] for a in range(m)]
+
+
+def represent(rng, M, signed, npiv):
+    """another representation of the same matroid: pivots, line scaling (signed), permutation"""
+    M = [r[:] for r in M]
+    for _ in range(npiv):
+        nz = [(i, j) for i, r in enumerate(M) for j, v in enumerate(r) if v]
+        if not nz: break
+        i, j = rng.choice(nz)
+        M = py_pivot(M, i, j, 3 if signed else 2)
+    m, n = len(M), len(M[0])
+    if signed:
+        for i in range(m):
+            if rng.random() < 0.3: M[i] = [-v for v in M[i]]
+        for j in range(n):
+            if rng.random() < 0.3:
+                for r in M: r[j] = -r[j]
+    rp = list(range(m)); cp = list(range(n)); rng.shuffle(rp); rng.shuffle(cp)
+    return [[M[i][j] for j in cp] for i in rp]
+
+
+def y_operand(rng, lo, hi):
+    """graphic 0/1 matrix with two rows that agree except in one column: a graph with a node w of degree 3, two of whose
+    edges (x, y) are tree edges and the third (z) is not.  Returns rows, row index of x/y with 0 in column z, the one with 1, column z."""
+    while True:
+        nn = rng.randint(max(3, lo), max(3, hi))
+        ne = nn - 1 + rng.randint(1, nn)
+        edges = rand_multigraph(rng, nn, ne, loops=False)
+        p, q, t = rng.sample(range(nn), 3)
+        w = nn
+        edges = [(w, p), (w, q)] + edges + [(w, t)]
+        # spanning tree: x, y first, z last
+        parent = list(range(nn + 1))
+        def find(a):
+            while parent[a] != a:
+                parent[a] = parent[parent[a]]; a = parent[a]
+            return a
+        order = [0, 1] + rng.sample(range(2, len(edges) - 1), len(edges) - 3) + [len(edges) - 1]
+        forest = []
+        for i in order:
+            a, b = find(edges[i][0]), find(edges[i][1])
+            if a != b:
+                parent[a] = b; forest.append(i)
+        if len(forest) != nn or (len(edges) - 1) in forest:
+            continue
+        fs = set(forest)
+        cof = [i for i in range(len(edges)) if i not in fs]
+        rng.shuffle(cof); fo = list(forest); rng.shuffle(fo)
+        rows = rows_of(len(fo), len(cof), cycle_matrix(nn + 1, edges, fo, cof))
+        rx, ry, cz = fo.index(0), fo.index(1), cof.index(len(edges) - 1)
+        if rows[rx][cz] == rows[ry][cz] or any(rows[rx][j] != rows[ry][j] for j in range(len(cof)) if j != cz):
+            continue
+        ra, rb = (rx, ry) if rows[rx][cz] == 0 else (ry, rx)
+        return rows, ra, rb, cz
+
+
+def delta_piece(rng, lo, hi):
+    """0/1 operand of a delta-sum, graphic or cographic: rows, special row, column with 0 / with 1 in the special row"""
+    if rng.random() < 0.5:
+        return delta_operand(rng, lo, hi)
+    rows, ra, rb, cz = y_operand(rng, lo, hi)
+    return [list(c) for c in zip(*rows)], cz, ra, rb
+
+
+def py_delta_sum(A, r1, ca, cb, B, r2, cc, cd):
+    """[[A', a b^T],[d c^T, D']] over GF(2) (Cmr/Sums.lean composeDelta)"""
+    rows1 = [i for i in range(len(A)) if i != r1]; cols1 = [j for j in range(len(A[0])) if j not in (ca, cb)]
+    rows2 = [i for i in range(len(B)) if i != r2]; cols2 = [j for j in range(len(B[0])) if j not in (cc, cd)]
+    top = [[A[i][j] for j in cols1] + [(A[i][ca] * B[r2][j]) % 2 for j in cols2] for i in rows1]
+    bot = [[(B[i][cc] * A[r1][j]) % 2 for j in cols1] + [B[i][j] for j in cols2] for i in rows2]
+    return top + bot
+
+
+def regular_by_construction(rng, lo, hi, depth):
+    """0/1 matrix that is regular by Seymour's theorem: iterated delta-sums of graphic and cographic pieces (in general neither
+    graphic nor cographic), in a random representation"""
+    A, r1, ca, cb = delta_piece(rng, lo, hi)
+    M = A
+    for _ in range(depth):
+        B, r2, cd, cc = delta_piece(rng, lo, hi)
+        M = py_delta_sum(A, r1, ca, cb, B, r2, cc, cd)
+        # to continue, the result would need a new triangle; one level of nesting is produced by re-deriving an operand below
+        break
+    return M
+
+
+def structured_ops(rng, count, kinds=("tu", "regular", "tusigned", "tuall"), want_bits=0, small_only=False):
+    """op lines on structured matrices: representations of R10/R12 (TU by construction when signed), their supports (regular),
+    one-entry corruptions (verdict from the oracle where feasible), delta-sums of graphic and cographic pieces (regular by
+    construction; the Camion-signed version is TU)"""
+    ops = []
+    strategies = [strategy(i) for i in range(5)]
+    while len(ops) < count:
+        kind = rng.choice(kinds)
+        base_mask = (DEFAULT_MASK | rng.choice(strategies) | want_bits) & ~3
+        x = rng.random()
+        want = None
+        if x < 0.45:
+            src = rng.choice(("R10", "R12", "R12"))
+            signed = kind in ("tu", "tuall") and rng.random() < 0.8
+            M0 = (R10_TU if src == "R10" else R12)
+            M = represent(rng, [[(v if signed else abs(v)) for v in r] for r in M0], signed, rng.randint(0, 6))
+            want = "yes" if (signed or kind in ("regular", "tusigned")) else None     # the 0/1 support is regular, not necessarily TU
+            if rng.random() < 0.3:
+                i, j = rng.randrange(len(M)), rng.randrange(len(M[0]))
+                M[i][j] = rng.choice([v for v in ((-1, 0, 1) if signed else (0, 1)) if v != M[i][j]])
+                want = None
+            if rng.random() < 0.3 and not small_only:
+                # extend by unit / parallel lines (keeps the class)
+                for _ in range(rng.randint(1, 2)):
+                    i = rng.randrange(len(M)); M = M + [M[i][:]]
+                    j = rng.randrange(len(M[0])); M = [r + [r[j]] for r in M]
+        else:
+            signed = False
+            if small_only:
+                M = regular_by_construction(rng, 3, 4, 1)
+            else:
+                M = regular_by_construction(rng, 3, rng.choice((4, 5, 6, 8)), 1)
+            M = represent(rng, M, False, rng.randint(0, 3))
+            want = "yes"
+            if rng.random() < 0.2:
+                i, j = rng.randrange(len(M)), rng.randrange(len(M[0])); M[i][j] = 1 - M[i][j]; want = None
+            if kind in ("tu", "tuall"):
+                kind = "tusigned"
+        m, n = len(M), len(M[0])
+        if m == 0 or n == 0:
+            continue
+        mt = mat_tokens(m, n, flat_of(M))
+        w = ("@want=%s " % want) if want else ""
+        if kind == "tu":
+            ops.append("%stu %d %s" % (w, base_mask | B_TERNARY, mt))
+        elif kind == "regular":
+            if any(v < 0 for r in M for v in r):
+                M = [[abs(v) for v in r] for r in M]; mt = mat_tokens(m, n, flat_of(M))
+            ops.append("%sregular %d %s" % (w, base_mask & ~B_TERNARY, mt))
+        elif kind == "tusigned":
+            if any(v < 0 for r in M for v in r):
+                M = [[abs(v) for v in r] for r in M]; mt = mat_tokens(m, n, flat_of(M))
+            ops.append("%stusigned %d %s" % (w, base_mask, mt))
+        else:
+            masks = [(DEFAULT_MASK & ~3) | st for st in strategies]
+            if m <= 10 and n <= 10: masks += [(DEFAULT_MASK & ~3) | 1, (DEFAULT_MASK & ~3) | 2]
+            ops.append("tuall %s %d %s" % (mt, len(masks), " ".join(map(str, masks))))
+    return ops
 
 
 @check("C10")
